@@ -4,3 +4,14 @@ import MoPepGen.Model.Digest
 import MoPepGen.Generated.Expasy
 import MoPepGen.Generated.Weights
 import MoPepGen.Driver.C10
+import MoPepGen.Model.Pipeline
+import MoPepGen.Driver.Pipe
+import MoPepGen.Lemmas.Regex
+import MoPepGen.Props.C10
+import MoPepGen.Props.C04
+import MoPepGen.Props.C06
+import MoPepGen.Props.C07
+import MoPepGen.Model.IndexDir
+import MoPepGen.Driver.C12
+import MoPepGen.Lemmas.IndexDir
+import MoPepGen.Props.C12
